@@ -4,10 +4,16 @@
    (nearest sample index to t0*fs) IS s0 for on-grid x-limits is shown on a finite grid of sampling
    rates by a vm_compute sweep (stated bound: fs in the list, k < 2000) and checked against the
    real plots on every run; the truncating offset used before the repair is refuted.
+   Which cycles are in the window-limited table is Model/Window.v keep_row (C18, as repaired: time stamps sample / fs
+   against the limits); for x-limits that are time stamps of the plotted time axis the highlight / panel statements are
+   given against the WHOLE table (`..._on_grid`), and the pre-repair selection is refuted on the window [7, 18) at fs = 100.
+   Threshold lines: looked up by parameter name, independent of the order of the dictionary.
    Rendering itself (matplotlib) is trusted.  Structural theorems have no axioms. *)
-From Coq Require Import List Arith Bool ZArith Sorted Floats.PrimFloat.
+From Coq Require Import List Arith Bool ZArith Sorted Reals Permutation Floats.PrimFloat.
+From Coq Require Strings.String.
+Import Strings.String.StringSyntax.
 Import ListNotations.
-From ByC Require Import Base.Result Base.FloatBase Model.Cycles Model.Window Model.Plots Proofs.Plots.
+From ByC Require Import Base.Result Base.FloatBase Base.FloatFacts Model.Cycles Model.Window Model.Plots Proofs.Plots.
 
 (* every drawn marker sits, in the view, at the sample of a genuine cyclepoint of its series *)
 Theorem C20_markers_are_genuine_cyclepoints : forall s0 n pts q,
@@ -111,3 +117,77 @@ Theorem C20_legacy_offset_refuted :
   offset_legacy 100 (29 * 0x1.47ae147ae147bp-7)%float = 28%Z /\ offset_repaired 100 (29 * 0x1.47ae147ae147bp-7)%float = 29%Z.
 Proof. exact offset_legacy_refuted. Qed.
 Print Assumptions C20_legacy_offset_refuted.
+
+(* ---- the window-limited table is part of the model (limit_df as repaired): for x-limits that are the time stamps of
+   samples k0 and k0 + n of the plotted time axis, every labelled cycle of the table lying entirely inside the view
+   [k0, k0 + n - 1] — also one starting exactly on the first sample of the view — is highlighted completely *)
+Theorem C20_highlight_every_burst_cycle_in_view_on_grid : forall fs (k0 : Z) n (rows : list (srow * bool)) r j,
+  finite fs = true -> (0 < FR fs)%R -> (Z.abs k0 < 2 ^ 53)%Z -> (Z.abs (k0 + Z.of_nat n) < 2 ^ 53)%Z ->
+  finite (Z2F k0 / fs)%float = true -> finite (Z2F (k0 + Z.of_nat n) / fs)%float = true ->
+  In (r, true) rows -> (k0 <= s_last r)%Z -> (s_last r <= s_next r)%Z -> (s_next r <= k0 + Z.of_nat n - 1)%Z ->
+  (s_last r <= j <= s_next r)%Z ->
+  nth (Z.to_nat (j - k0))
+      (burst_mask n k0 (view_rows (Some (fs, (Z2F k0 / fs)%float, (Z2F (k0 + Z.of_nat n) / fs)%float)) rows))
+      false = true.
+Proof. exact summary_highlight_complete_on_grid. Qed.
+Print Assumptions C20_highlight_every_burst_cycle_in_view_on_grid.
+
+Theorem C20_highlight_only_burst_cycles_of_the_table : forall lim s0 n (rows : list (srow * bool)) i,
+  nth i (burst_mask n s0 (view_rows lim rows)) false = true ->
+  exists r, In (r, true) rows /\ (s_last r <= s0 + Z.of_nat i <= s_next r)%Z.
+Proof. exact summary_highlight_sound. Qed.
+Print Assumptions C20_highlight_only_burst_cycles_of_the_table.
+
+Theorem C20_panel_shows_every_cycle_in_view_on_grid : forall (V : Type) fs (k0 : Z) n (rows : list (srow * V)) r v,
+  finite fs = true -> (0 < FR fs)%R -> (Z.abs k0 < 2 ^ 53)%Z -> (Z.abs (k0 + Z.of_nat n) < 2 ^ 53)%Z ->
+  finite (Z2F k0 / fs)%float = true -> finite (Z2F (k0 + Z.of_nat n) / fs)%float = true ->
+  In (r, v) rows -> (k0 <= s_last r)%Z -> (s_last r <= s_next r)%Z -> (s_next r <= k0 + Z.of_nat n - 1)%Z ->
+  In ((s_center r - k0)%Z, v)
+     (panel_interp n k0 (view_rows (Some (fs, (Z2F k0 / fs)%float, (Z2F (k0 + Z.of_nat n) / fs)%float)) rows)).
+Proof. exact @summary_panel_complete_on_grid. Qed.
+Print Assumptions C20_panel_shows_every_cycle_in_view_on_grid.
+
+Theorem C20_panel_points_are_cycle_centres_of_the_table : forall (V : Type) lim s0 n (rows : list (srow * V)) q v,
+  In (q, v) (panel_interp n s0 (view_rows lim rows)) ->
+  exists r, In (r, v) rows /\ q = (s_center r - s0)%Z /\ (s0 <= s_last r)%Z /\ (s_next r <= s0 + Z.of_nat n - 1)%Z.
+Proof. exact @summary_panel_sound. Qed.
+Print Assumptions C20_panel_points_are_cycle_centres_of_the_table.
+
+(* Legacy (F16): the pre-repair selection (sample indices against start * fs) lost the labelled cycle [7, 10] of the view
+   [7, 18) at fs = 100 — samples 7 .. 9 not highlighted, no panel point at its centre; the repaired one keeps it *)
+Theorem C20_legacy_view_selection_refuted :
+  burst_mask 11 7 (view_rows_legacy f16_lim f16_rows)
+    = [false; false; false; true; true; true; true; false; false; false; false] /\
+  burst_mask 11 7 (view_rows f16_lim f16_rows)
+    = [true; true; true; true; true; true; true; false; false; false; false] /\
+  map fst (panel_interp 11 7 (view_rows_legacy f16_lim f16_rows)) = [5; 8]%Z /\
+  map fst (panel_interp 11 7 (view_rows f16_lim f16_rows)) = [1; 5; 8]%Z.
+Proof. exact view_rows_legacy_refuted. Qed.
+Print Assumptions C20_legacy_view_selection_refuted.
+
+Local Open Scope string_scope.
+(* ---- threshold lines: one panel per given parameter other than min_n_cycles, its line at the value given for THAT
+   parameter by name ... *)
+Theorem C20_every_given_parameter_has_its_panel : forall (given : list (String.string * float)) k v,
+  NoDup (map fst given) -> In (k, v) given -> k <> "min_n_cycles" -> In (k, Some v) (summary_panels given).
+Proof. exact summary_panels_complete. Qed.
+Print Assumptions C20_every_given_parameter_has_its_panel.
+
+Theorem C20_threshold_line_is_the_value_given_by_name : forall (given : list (String.string * float)) k t,
+  In (k, t) (summary_panels given) -> k <> "min_n_cycles" /\ exists v, t = Some v /\ In (k, v) given.
+Proof. exact summary_panels_sound. Qed.
+Print Assumptions C20_threshold_line_is_the_value_given_by_name.
+
+(* ... whatever the insertion order of the dictionary (min_n_cycles first, in the middle, last, absent) ... *)
+Theorem C20_threshold_lines_do_not_depend_on_key_order : forall (given given' : list (String.string * float)) k t,
+  NoDup (map fst given) -> Permutation given given' ->
+  (In (k, t) (summary_panels given) <-> In (k, t) (summary_panels given')).
+Proof. exact summary_panels_order_free. Qed.
+Print Assumptions C20_threshold_lines_do_not_depend_on_key_order.
+
+(* ... and through Bycycle(thresholds = ...), which moves keys written in shorthand behind the others *)
+Theorem C20_object_shorthand_keeps_threshold_lines : forall (user : list (String.string * bool * float)) k t,
+  NoDup (map fst (function_thresholds user)) ->
+  (In (k, t) (summary_panels (object_thresholds user)) <-> In (k, t) (summary_panels (function_thresholds user))).
+Proof. exact object_panels_by_name. Qed.
+Print Assumptions C20_object_shorthand_keeps_threshold_lines.
